@@ -35,7 +35,8 @@ def run(prog, chk):
     from props import C10
     chk.rule(C10.containment_every_target, prog, chk)  # every listed element contributes its box
     chk.rule(C10.registration, prog, chk)  # ... its resolved box: a listed element that failed in this pass is not visible to later siblings
-    chk.rule(C10.registry_discipline, prog, chk)  # ... and stays invisible until it is: withdrawn unconditionally, never found again as written
+    chk.rule(C10.registry_discipline, prog, chk)
+    chk.rule(C10.lookups_read_current_state, prog, chk)  # the box of a listed element is the one it has now, not one remembered from an earlier lookup  # ... and stays invisible until it is: withdrawn unconditionally, never found again as written
     chk.rule(C10.registration_keys_agree, prog, chk)
     chk.rule(C11.extraction_algebra, prog, chk)  # the box a listed circle / ellipse offers follows from r / rx / ry, not from a stray width / height
     from props import C08
